@@ -98,8 +98,8 @@ def comment_relation_constraints(info, toktypes, consts):
 
 # ---------------------------------------------------------------------------- C09 / C10
 
-def format_paths(t, dump, prog, mode):
-    """run the formatter with symbolic lines; returns list of (output, pc, info)"""
+def format_paths(t, dump, prog, mode, sym=True):
+    """run the formatter with symbolic lines (sym=False: with the lines the text has); returns list of (output, pc, info)"""
     consts = prog_consts(prog)
     toktypes = token_types(dump)
     holder = {}
@@ -107,8 +107,9 @@ def format_paths(t, dump, prog, mode):
     def fmt(c):
         M = make_machine(c)
         snap = Snapshot(prog, dump).load()
-        asm, info = decorate(M, snap, sym_lines='all', text=t.text)
-        asm += comment_relation_constraints(info, toktypes, consts)
+        asm, info = decorate(M, snap, sym_lines='all' if sym else False, text=t.text)
+        if sym:
+            asm += comment_relation_constraints(info, toktypes, consts)
         holder['info'] = info
         for a in asm:
             c.assume(a)
@@ -252,8 +253,10 @@ def c10_text(t, dump, tier):
         elif out != first[0] and out not in outs:
             mdl = model_of(pc)
             lay = layout_text(t.text, info, mdl) if mdl is not None else None
+            mdl0 = model_of(first[1])
+            lay0 = layout_text(t.text, info, mdl0) if mdl0 is not None else None
             res.append(BFinding('C10', 'format', t.tag, 'layout-dependent', 'two layouts of the same tokens (comments kept on the line of the same token) format differently',
-                                {'text': t.text, 'relayout': lay, 'a': first[0][:300], 'b': out[:300]}))
+                                {'text': t.text, 'relayout': lay, 'relayout_base': lay0, 'a': first[0][:300], 'b': out[:300]}))
         if out not in outs:
             outs.append(out)
     if not outs:
@@ -294,7 +297,9 @@ def c10_text(t, dump, tier):
             continue                      # C09's finding
         t2 = bfamily.T(t.tag, o)
         try:
-            p2, _ = format_paths(t2, d, prog, 'c10b')
+            # idempotence proper: the formatted text as it is laid out (its re-layouts are re-layouts of the original's tokens
+            # and are covered by the canonicality obligation above)
+            p2, _ = format_paths(t2, d, prog, 'c10b', sym=False)
         except Unsupported as u:
             stats['inconclusive'].append('second pass: %s' % str(u)[:150])
             continue
@@ -303,7 +308,7 @@ def c10_text(t, dump, tier):
             if kind != 'ok' or val[1] is not None:
                 continue
             if val[0] != o:
-                res.append(BFinding('C10', 'format', t.tag, 'not-idempotent', 'formatting the formatted text changes it again', {'text': t.text, 'once': o[:400], 'twice': val[0][:400]}))
+                res.append(BFinding('C10', 'format', t.tag, 'not-idempotent', 'formatting the formatted text changes it again', {'text': t.text, 'once': o, 'twice': val[0][:400]}))
                 break
     return res, stats
 
